@@ -244,3 +244,11 @@ package state
 //@   ensures committed: result2 == nil ==> (abciPhase == 0 && appH == old(abciBegun))
 //@   atcall AppConnConsensus.CommitSync quiet: mpLocked && mpFlushed
 //@   atcall Mempool.Update locked: mpLocked && abciPhase == 0 && arg0 == block.Header.Height
+
+// What the application reports about itself (Info): ASSUMED truthful about the height it has committed; appInfo records
+// what it answered (used by state sync's verifyApp).
+//@ spec func appInfo(appHash []byte, height uint64, version uint64) bool
+//@ extern proxy.AppConnQuery.InfoSync
+//@   assigns nothing
+//@   ensures truthful: result1 == nil ==> result0.LastBlockHeight == appH
+//@   grants v: result1 == nil ==> appInfo(result0.LastBlockAppHash, uint64(result0.LastBlockHeight), result0.AppVersion)
